@@ -1,2 +1,8 @@
 import GlueVerif.Props.C10
 open GlueVerif.C10
+#print axioms stat_bbox_eq
+#print axioms stat_bbox_shape
+#print axioms hist_total
+#print axioms hist_bin
+#print axioms hist_bin_top
+#print axioms hist_perbin_partial
